@@ -5,7 +5,7 @@
    nothing; amounts, interest amounts and redemption amounts are arbitrary integers (the machine refuses
    what the code refuses). loans v = sum over the stored Debt records of Borrowed + InterestStacked - InterestPaid. *)
 From Coq Require Import ZArith List Bool Arith.
-From Elys Require Import Base.Res Base.Fn Models.SumLedger Models.VaultLedger Proofs.VaultLedgerProofs.
+From Elys Require Import Base.Res Base.Fn Models.SumLedger Models.VaultLedger Proofs.VaultLedgerProofs Proofs.VaultLedgerFrame.
 Import ListNotations.
 Open Scope Z_scope.
 
@@ -89,6 +89,27 @@ Theorem C06_cap_bounds_real_loans : forall v k a i v', VInv0 v -> vstep v (VBorr
   v_tv v - v_cash v = loans v /\ 10 * (loans v' - i) <= 9 * v_tv v.
 Proof. exact borrow_cap_real_loans. Qed.
 Print Assumptions C06_cap_bounds_real_loans.
+
+(* FRAME. A step on one borrower's debt record (borrow, repay, interest accrual) leaves every OTHER borrower's record
+   (Borrowed, InterestStacked, InterestPaid) exactly as it was; bonds, unbonds and third-party receipts touch no record. *)
+Theorem C06_other_borrowers_untouched_step : forall v o v', vstep v o = Ok v' ->
+  forall k', borrower_of o <> Some k' -> same_record v v' k'.
+Proof. exact vstep_other_borrowers. Qed.
+Print Assumptions C06_other_borrowers_untouched_step.
+
+(* ... over EVERY history of transactions (failing ones rolled back): a borrower no step names keeps its record
+   (nobody's repayment or liquidation lowers, and nobody's borrowing raises, another position's debt). *)
+Theorem C06_other_borrowers_untouched : forall h v k', (forall l o, In l h -> In o l -> borrower_of o <> Some k') ->
+  same_record v (vrun vstep v h) k'.
+Proof. exact vrun_other_borrowers. Qed.
+Print Assumptions C06_other_borrowers_untouched.
+
+(* The module account never pays out more than it holds: a redemption or a loan above the cash is refused. *)
+Theorem C06_payout_beyond_cash_refused : forall v,
+  (forall p, v_cash v < p -> exists c, vstep v (VUnbond p) = Err c) /\
+  (forall k a i, v_cash v < a -> exists c, vstep v (VBorrow k a i) = Err c).
+Proof. intros v. split; [exact (unbond_beyond_cash_refused v) | exact (borrow_beyond_cash_refused v)]. Qed.
+Print Assumptions C06_payout_beyond_cash_refused.
 
 Example C06_nonvacuous :
   let v := vrun vstep vault_empty
